@@ -3,7 +3,7 @@ import math
 from fractions import Fraction as F
 
 SUPPORTS = [0.0, 0.05, 0.3, 1.0, 1.0, 2.0, 10.0, 0.001, 1e-6, 1e-10, 1e-13, 1000.0]
-BLOC_NAMES = [["W", "C", "X"], ["b2", "B1", "a3"], ["C", "W", "Z"]]
+BLOC_NAMES = [["W", "C", "X", "Y", "V"], ["b2", "B1", "a3", "A4", "b0"], ["C", "W", "Z", "Q", "K"]]
 
 SLATE_MODELS = ["slate_PlackettLuce", "slate_BradleyTerry", "AlternatingCrossover", "CambridgeSampler"]
 NAME_MODELS = ["name_PlackettLuce", "short_name_PlackettLuce", "name_BradleyTerry", "name_Cumulative"]
